@@ -108,11 +108,15 @@ def __setitem__(self, indx, arg):
             return
 
         arg = self.as_this_type(arg, recursive=True)
+        _require_assignable(self, arg)
 
         # Shapes need to match
         if shape_after:
             arg = arg.reshape(arg._shape_[:-len(shape_after)])
                 # raises ValueError if the reshape fails
+
+        if self._shape_ == () and arg.size != 1:
+            Qube._raise_incompatible_shape('[]', self, arg)
 
         arg = arg.broadcast_to(self._shape_, recursive=True, _protected=False)
         arg = arg.copy(recursive=True)
@@ -142,6 +146,7 @@ def __setitem__(self, indx, arg):
 
     # Convert the argument to this type
     arg = self.as_this_type(arg, recursive=True)
+    _require_assignable(self, arg)
 
     # Create the values index
     if has_ellipsis and self._rank_:
@@ -243,6 +248,28 @@ def __setitem__(self, indx, arg):
             self.insert_deriv(key, self_deriv)
 
     return
+
+#===============================================================================
+def _require_assignable(self, arg):
+    """Raise a ValueError if the items or derivatives of arg are incompatible
+    with this object. Called by __setitem__ before anything is modified, because
+    the derivatives are updated after the values and mask have been written.
+    """
+
+    if self._numer_ != arg._numer_:
+        Qube._raise_incompatible_numers('[]', self, arg)
+
+    if self._denom_ != arg._denom_:
+        Qube._raise_incompatible_denoms('[]', self, arg)
+
+    for key, arg_deriv in arg._derivs_.items():
+        if key in self._derivs_:
+            self_deriv = self._derivs_[key]
+            if self_deriv._denom_ != arg_deriv._denom_:
+                Qube._raise_incompatible_denoms('[]', self_deriv, arg_deriv)
+
+    for self_deriv in self._derivs_.values():
+        self_deriv.require_writable()
 
 #===============================================================================
 def _prep_index(self, indx):
